@@ -25,6 +25,14 @@ type ListGate struct {
 	ch       chan struct{}
 	Timeouts int
 	Deadline time.Duration
+	total    int
+}
+
+// Count returns the number of calls that went through the gate so far (armed or not).
+func (g *ListGate) Count() int {
+	g.mu.Lock()
+	defer g.mu.Unlock()
+	return g.total
 }
 
 // Arm opens a round for k readers (k <= 0: not armed).
@@ -56,6 +64,7 @@ func (g *ListGate) Arrived() int {
 
 func (g *ListGate) arrive() {
 	g.mu.Lock()
+	g.total++
 	if !g.armed {
 		g.mu.Unlock()
 		return
